@@ -246,10 +246,22 @@ example :
 /-! ### lz4 wrapper -/
 
 theorem lz4Decode_be32 (b : BlockCodec) (n : Nat) (hn : n < 4294967296) (z : Bytes) :
-    lz4Decode b (be32 n ++ z) = if n = 0 then .ok [] else b.decB z n := by
+    lz4Decode b (be32 n ++ z) = if n = 0 then .ok [] else
+      (match b.decB z n with
+       | .error e => .error e
+       | .ok out => if out.length = n then .ok out else .error ()) := by
   have hr := readBE32_be32 n hn
-  simp [lz4Decode, lz4Prefix, be32, hr]
-  omega
+  have hp : lz4Prefix (be32 n ++ z) = n := by simp [lz4Prefix, be32, hr]
+  have hd : (be32 n ++ z).drop 4 = z := List.drop_left' (be32_length _)
+  have hl : ¬ (be32 n ++ z).length < 4 := by simp [be32_length]
+  unfold lz4Decode
+  rw [if_neg hl, hp, hd]
+  by_cases h0 : n = 0
+  · simp [h0]
+  · simp only [h0, if_false]
+    cases b.decB z n with
+    | error e => rfl
+    | ok out => by_cases hl' : out.length = n <;> simp [hl']
 
 /-- **The destination lz4.go allocates is large enough.** `make([]byte, CompressBlockBound(len+4))`
     minus the 4 prefix bytes is never below `CompressBlockBound(len)`: the block encoder is always
@@ -353,13 +365,29 @@ example :
     (lz4Decode b [0, 0, 0, 2, 0x55, 7, 8]).toOption = some [7, 8] ∧
     (lz4Decode b [0, 0, 0]).toOption = none := by decide
 
-/-- FULL STATEMENT the property suggests ("a corrupt compressed body yields an error") is not provable
-    for the lz4 wrapper as coded: lz4.go never compares the number of bytes the block decoder produced
-    with the declared length, so a body whose prefix over-declares is accepted and returned short.
-    Kernel-checked witness (block decoder = "copy"): prefix says 5, one byte comes back, no error. -/
-theorem C18_cex_lz4_length_unchecked :
+/-- **The declared length is checked** (after the repair of KF-C18-1, props/C18.fix-KF-C18-1.diff): for
+    every block codec and every input, whatever lz4 Decode returns has exactly the length its 4-byte
+    prefix declares — a body whose prefix over- or under-declares is an error, never a short result.
+    (Before the repair: `C18_cex_lz4_length_unchecked`, prefix 5, one byte back, no error.) -/
+theorem C18_lz4_length_checked (b : BlockCodec) (d x : Bytes) (h : lz4Decode b d = .ok x) :
+    x.length = lz4Prefix d := by
+  unfold lz4Decode at h
+  split at h
+  · cases h
+  split at h
+  · rename_i h0; injection h with h; subst h; simp [h0]
+  · cases hd : b.decB (d.drop 4) (lz4Prefix d) with
+    | error e => simp [hd] at h
+    | ok out =>
+      simp only [hd] at h
+      split at h
+      · rename_i hl; injection h with h; subst h; exact hl
+      · cases h
+
+/-- the former counterexample is an error now; a block that decodes to the declared length is accepted -/
+example :
     let b : BlockCodec := { encB := fun x _ => .ok x, decB := fun src n => .ok (src.take n) }
-    lz4Prefix [0, 0, 0, 5, 0x41] = 5 ∧ (lz4Decode b [0, 0, 0, 5, 0x41]).toOption = some [0x41] := by decide
+    (lz4Decode b [0, 0, 0, 5, 0x41]).toOption = none ∧ (lz4Decode b [0, 0, 0, 1, 0x41]).toOption = some [0x41] := by decide
 
 /-! ### lz4: the block format as a concrete block codec (Model/CompressLz4Block.lean) -/
 
@@ -408,8 +436,10 @@ theorem C18_lz4_decodes_any_stream (qs : List Lz4Sq) (last : Bytes) (hwf : lz4WF
   · have : x = [] := List.eq_nil_of_length_eq_zero h0
     simp [this]
   · rw [if_neg h0]
-    show lz4BlockDecode (lz4Ser qs last) x.length = .ok x
-    rw [lz4BlockDecode_stream qs last x.length hwf (by omega), hx]
+    have hd : lz4Ref.decB (lz4Ser qs last) x.length = .ok x := by
+      show lz4BlockDecode (lz4Ser qs last) x.length = .ok x
+      rw [lz4BlockDecode_stream qs last x.length hwf (by omega), hx]
+    simp [hd]
 
 /-- non-vacuity: literals "AB", an overlapping match (offset 1, length 6), last literals "C" -/
 example :
@@ -446,16 +476,17 @@ theorem C18_cex_lz4_zero_offset :
               0x4e, 0x4e, 0x4e, 0x4e, 0x4e, 0x4e, 0x4e, 0x4e,
               0x50, 0x51, 0x52, 0x53, 0x54, 0x55, 0x56, 0x57, 0x58, 0x59, 0x5a, 0x5b] := by decide
 
-/-- what the 4-byte prefix is NOT: the format's decoder may legitimately produce fewer bytes than the
-    destination holds — lz4.go hands that short result on (see `C18_cex_lz4_length_unchecked`) -/
-example : (lz4Decode lz4Ref [0, 0, 0, 9, 0x10, 0x41]).toOption = some [0x41] := by decide
+/-- the format's decoder may legitimately produce fewer bytes than the destination holds — lz4.go now
+    refuses that short result (`C18_lz4_length_checked`) -/
+example : (lz4BlockDecode [0x10, 0x41] 9).toOption = some [0x41] ∧
+    (lz4Decode lz4Ref [0, 0, 0, 9, 0x10, 0x41]).toOption = none := by decide
 
 /-! ### snappy: the block format as a second concrete codec (Model/CompressSnappy.lean) -/
 
 /-- **The declared length is checked.** Whatever bytes arrive: if the snappy decoder accepts them, the
     body it returns has exactly the length the block's uvarint prefix declares (at most 2³²-1) — a body
     whose prefix over- or under-declares is an error, never a short or padded result. (The lz4 wrapper
-    does NOT have this: `C18_cex_lz4_length_unchecked`.) -/
+    has it since the repair of KF-C18-1: `C18_lz4_length_checked`.) -/
 theorem C18_snappy_length_checked (src b : Bytes) (h : snappyDecode src = .ok b) :
     ∃ rest, uvarint src = some (b.length, rest) ∧ b.length ≤ 0xffffffff := by
   unfold snappyDecode snappyDecodedLen at h
